@@ -6,7 +6,11 @@ Data-like parts of the C17 model:
   * `TransferDirection` members and values (the last component of the cache key);
   * `Transfer._UNPICKABLE_FIELDS`, the attributes assigned in `Transfer.__init__` (what `__getstate__` copies);
   * the state sets of `is_finalized` / `is_processing` / `is_transferring`;
-  * `AbortReason.REQUESTED` (the value `__setstate__` fills in for a legacy ABORTED record).
+  * `AbortReason.REQUESTED` (the value `__setstate__` fills in for a legacy ABORTED record);
+  * the `abort()` table of the state classes (what `TransferManager.remove` does to a transfer that is still listed while
+    the removal is in progress): which states define `abort`, whether it stops the transfer (`_stop_transfer`: complete
+    time) and whether it removes the local file; `_stop_transfer`, `_cancel_transfer_tasks`, `_remove_local_file` and
+    `Transfer.set_complete_time` are pinned to the shapes the model transcribes.
 `is_transfered` is pinned to `self.filesize == self.bytes_transfered`.
 Unknown constructs raise TranslateError (never skipped).
 """
@@ -74,6 +78,107 @@ def _state_set(c: ast.ClassDef, name: str) -> list[str]:
     if not ok:
         raise TranslateError(f'Transfer.{name}: expected `return self.state.VALUE in (...)`, got {ast.unparse(v)[:80]}')
     return [_state_attr(e) for e in v.comparators[0].elts]
+
+
+def _norm(stmts: list[ast.stmt]) -> list[str]:
+    """statements as text, without docstrings and logging calls"""
+    out = []
+    for st in stmts:
+        if isinstance(st, ast.Expr) and isinstance(st.value, ast.Constant) and isinstance(st.value.value, str):
+            continue
+        if isinstance(st, ast.Expr) and isinstance(st.value, ast.Call) and \
+                ast.unparse(st.value.func).startswith('logger.'):
+            continue
+        out.append(ast.unparse(st))
+    return out
+
+
+def _func(tree: ast.AST, name: str):
+    for n in tree.body:
+        if isinstance(n, (ast.FunctionDef, ast.AsyncFunctionDef)) and n.name == name:
+            return n
+    raise TranslateError(f'function {name} not found')
+
+
+_ABORT_CANCEL = 'await self._cancel_transfer_tasks()'
+_ABORT_STOP = 'await self._stop_transfer()'
+_ABORT_RMFILE = 'await _remove_local_file(self.transfer)'
+_ABORT_TAIL = ['self.transfer.abort_reason = reason',
+               'await self.transfer.transition(AbortedState(self.transfer))',
+               'return True']
+
+
+def _abort_table(st_tree: ast.AST, md_tree: ast.AST, classes: list[tuple[str, str]]) -> list[tuple[str, bool, bool]]:
+    """(state name, stops the transfer, removes the local file) for every state class that defines `abort`."""
+    ts = _cls(st_tree, 'TransferState')
+    if _norm(_method(ts, 'abort').body) != ['return False']:
+        raise TranslateError('TransferState.abort (undefined transition) is not `return False`')
+    if _norm(_method(ts, '_cancel_transfer_tasks').body) != \
+            ['await asyncio.gather(*self.transfer.cancel_tasks(), return_exceptions=True)']:
+        raise TranslateError('TransferState._cancel_transfer_tasks has an unknown shape')
+    if _norm(_method(ts, '_stop_transfer').body) != ['await self._cancel_transfer_tasks()',
+                                                    'self.transfer.set_complete_time()']:
+        raise TranslateError('TransferState._stop_transfer has an unknown shape')
+    want_rm = ['if not transfer.is_download():\n    return',
+               'if transfer.local_path:\n'
+               '    try:\n'
+               '        if await asyncos.path.exists(transfer.local_path):\n'
+               '            await asyncos.remove(transfer.local_path)\n'
+               '    except OSError:\n'
+               '        pass\n'
+               '    transfer.local_path = None']
+    rm = _func(st_tree, '_remove_local_file')
+
+    def strip(stmts):
+        """the statement list without logging calls (recursively); an emptied block becomes `pass`"""
+        out = []
+        for st in stmts:
+            if isinstance(st, ast.Expr) and isinstance(st.value, ast.Call) and \
+                    ast.unparse(st.value.func).startswith('logger.'):
+                continue
+            for fld in ('body', 'orelse', 'finalbody'):
+                if getattr(st, fld, None):
+                    setattr(st, fld, strip(getattr(st, fld)))
+            for h in getattr(st, 'handlers', []) or []:
+                h.body = strip(h.body)
+            out.append(st)
+        return out or [ast.Pass()]
+    got_rm = [ast.unparse(st) for st in strip(ast.parse(ast.unparse(rm)).body[0].body)
+              if not (isinstance(st, ast.Expr) and isinstance(st.value, ast.Constant))]
+    if got_rm != want_rm:
+        raise TranslateError('_remove_local_file has an unknown shape: ' + repr(got_rm)[:300])
+    sct = _norm(_method(_cls(md_tree, 'Transfer'), 'set_complete_time').body)
+    if len(sct) != 1 or not sct[0].startswith('if self.start_time is not None:\n    self.complete_time = time.time()'):
+        raise TranslateError('Transfer.set_complete_time has an unknown shape: ' + repr(sct)[:200])
+    table = []
+    for cname, val in classes:
+        c = _cls(st_tree, cname)
+        m = next((x for x in c.body if isinstance(x, (ast.FunctionDef, ast.AsyncFunctionDef)) and x.name == 'abort'), None)
+        if m is None:
+            continue
+        args = [a.arg for a in m.args.args]
+        if args != ['self', 'reason'] or not isinstance(m, ast.AsyncFunctionDef):
+            raise TranslateError(f'{cname}.abort: unexpected signature')
+        body = _norm(m.body)
+        if len(body) < 4 or body[-3:] != _ABORT_TAIL:
+            raise TranslateError(f'{cname}.abort has an unknown shape: {body!r}'[:300])
+        head = body[:-3]
+        if head[0] == _ABORT_CANCEL:
+            stops = False
+        elif head[0] == _ABORT_STOP:
+            stops = True
+        else:
+            raise TranslateError(f'{cname}.abort does not start by cancelling the tasks: {head!r}'[:300])
+        if head[1:] == []:
+            removes = False
+        elif head[1:] == [_ABORT_RMFILE]:
+            removes = True
+        else:
+            raise TranslateError(f'{cname}.abort has an unknown shape: {head!r}'[:300])
+        table.append((val, stops, removes))
+    if not table:
+        raise TranslateError('no state class defines abort()')
+    return table
 
 
 def extract(repo: Path) -> dict:
@@ -160,6 +265,8 @@ def extract(repo: Path) -> dict:
             if s not in names:
                 raise TranslateError(f'Transfer.{nm}: {s} is not a State member')
 
+    out['abort_table'] = _abort_table(st_tree, md_tree, classes)
+
     body = _body(_method(tr, 'is_transfered'))
     if len(body) != 1 or not isinstance(body[0], ast.Return) or \
             ast.unparse(body[0].value) not in ('self.filesize == self.bytes_transfered',
@@ -181,6 +288,7 @@ def generate(repo: Path, lean_dir: Path) -> str:
     pairs_i = lambda l: '[' + ', '.join(f'({_s(a)}, {_int(b)})' for a, b in l) + ']'
     pairs_s = lambda l: '[' + ', '.join(f'({_s(a)}, {_s(b)})' for a, b in l) + ']'
     strs = lambda l: '[' + ', '.join(_s(a) for a in l) + ']'
+    abort_rows = '[' + ', '.join(f'({_s(n)}, {str(a).lower()}, {str(b).lower()})' for n, a, b in c['abort_table']) + ']'
     text = f'''-- GENERATED by translate/cache_constants.py from /repo/src/aioslsk/transfer/{{state,model}}.py — do not edit.
 namespace AioslskVerif.Generated.Cache
 /-- `TransferState.State` members (name, value), definition order -/
@@ -199,6 +307,9 @@ def initFields : List String := {strs(c['init_fields'])}
 def finalized : List String := {strs(c['is_finalized'])}
 def processing : List String := {strs(c['is_processing'])}
 def transferring : List String := {strs(c['is_transferring'])}
+/-- state classes that define `abort()` : (name of `VALUE`, calls `_stop_transfer` (sets the complete time),
+calls `_remove_local_file`); every other state refuses (`return False`) -/
+def abortTable : List (String × Bool × Bool) := {abort_rows}
 end AioslskVerif.Generated.Cache
 '''
     p = lean_dir / 'AioslskVerif/Generated/CacheConstants.lean'
